@@ -7,7 +7,7 @@ export GOFLAGS=-mod=mod GOPROXY=off GOSUMDB=off GOTOOLCHAIN=local
 s=$(mktemp -d /tmp/vseed.XXXXXX)
 rsync -a --exclude .git /repo/ "$s/"
 tags=""
-grep -q "go:build verif" "$d/demo_test.go" && tags="-tags verif"
+grep -q -E "go:build verif|astits\.Verif" "$d/demo_test.go" && tags="-tags verif"
 cp "$d/demo_test.go" "$s/zz_demo_test.go"
 (cd "$s" && go test $tags -vet=off -count=1 -run 'Test' . > "$s/clean.log" 2>&1); clean=$?
 if ! (cd "$s" && patch -s -p1 < "$d/patch.diff"); then echo "PATCH-FAILED $d"; rm -rf "$s"; exit 3; fi
